@@ -198,9 +198,11 @@ structure RLocal where
   dR : Nat
   mS : Nat
   mR : Nat
+  failG : Bool := false    -- this caller's GetPortMapping returns an error
+  failU : Bool := false    -- this caller's UpdatePortMappingStats returns an error
   deriving DecidableEq, Repr
 
-def rNew : RLocal := ⟨.start, 0, 0, 0, 0, 0, 0⟩
+def rNew : RLocal := ⟨.start, 0, 0, 0, 0, 0, 0, false, false⟩
 
 def rStep (v : Variant) (tid : Nat) (sh : RShared) (l : RLocal) : RShared × RLocal :=
   match l.pc with
@@ -208,10 +210,15 @@ def rStep (v : Variant) (tid : Nat) (sh : RShared) (l : RLocal) : RShared × RLo
     if v = .repaired ∧ sh.lock.isSome then (sh, l)            -- waits for reportMu
     else if sh.sent - sh.lastS = 0 ∧ sh.recv - sh.lastR = 0 then (sh, { l with pc := .done })
     else ({ sh with lock := if v = .repaired then some tid else none },
-          { pc := .get, curS := sh.sent, curR := sh.recv, dS := sh.sent - sh.lastS, dR := sh.recv - sh.lastR,
-            mS := 0, mR := 0 })
-  | .get => (sh, { l with pc := .upd, mS := sh.statS, mR := sh.statR })
-  | .upd => ({ sh with statS := l.mS + l.dS, statR := l.mR + l.dR, lastS := l.curS, lastR := l.curR,
+          { l with pc := .get, curS := sh.sent, curR := sh.recv, dS := sh.sent - sh.lastS, dR := sh.recv - sh.lastR,
+                   mS := 0, mR := 0 })
+  | .get =>
+    if l.failG then ({ sh with lock := none }, { l with pc := .done })        -- error: return (deferred unlock)
+    else (sh, { l with pc := .upd, mS := sh.statS, mR := sh.statR })
+  | .upd =>
+    if l.failU then ({ sh with lock := none }, { l with pc := .done })        -- error: nothing recorded
+    else
+            ({ sh with statS := l.mS + l.dS, statR := l.mR + l.dR, lastS := l.curS, lastR := l.curR,
                        updates := sh.updates + 1, lock := none },
              { l with pc := .done })
   | .done => (sh, l)
@@ -230,10 +237,20 @@ structure Round where
   addR : Nat
   n : Nat
   sched : Schedule
+  failGet : List Nat       -- reporters whose GetPortMapping fails
+  failUpd : List Nat       -- reporters whose UpdatePortMappingStats fails
   deriving Repr
 
+/-- A round without storage faults. -/
+abbrev mkRound (addS addR n : Nat) (sched : Schedule) : Round := ⟨addS, addR, n, sched, [], []⟩
+
+def rThread (r : Round) (i : Nat) : RLocal := { rNew with failG := r.failGet.contains i, failU := r.failUpd.contains i }
+
 def rStart (sh : RShared) (r : Round) : Cfg RShared RLocal :=
-  ⟨{ sh with sent := sh.sent + r.addS, recv := sh.recv + r.addR }, List.replicate r.n rNew⟩
+  ⟨{ sh with sent := sh.sent + r.addS, recv := sh.recv + r.addR }, (List.range r.n).map (rThread r)⟩
+
+/-- Does reporter `i` of the round get through without a storage error? -/
+def Round.clean (r : Round) (i : Nat) : Bool := !r.failGet.contains i && !r.failUpd.contains i
 
 def rRound (v : Variant) (sh : RShared) (r : Round) : RShared :=
   (run (rProg v) (r.sched ++ rounds r.n (3 * r.n)) (rStart sh r)).sh
@@ -375,7 +392,7 @@ def flowCopy (i : FlowIn) : C02.St := (C02.copy none i.reads i.writes {}).1
 
 /-- Shared report state after cleanup's report and the periodic goroutine's final report. -/
 def flowReportOf (counter : Nat) (s₂ : Schedule) : RShared :=
-  rRound .repaired rInit ⟨counter, 0, 2, s₂⟩
+  rRound .repaired rInit (mkRound counter 0 2 s₂)
 
 def flowReport (i : FlowIn) (s₂ : Schedule) : RShared := flowReportOf (flowCopy i).counter s₂
 
@@ -464,7 +481,10 @@ latch, under `m.mu`) stops the ticker and closes the channel.  Thread 0 is a rea
 `m.mu` (pending I/O) until it is unblocked, thread 1 the cleaner with a budget of `k` ticks (a tick
 that is ready is taken even if the stop channel is closed too: adversarial `select`), threads
 2… are closers.  `StopVariant.replace` is the rejected variant that installs a fresh channel in
-the field after closing the old one. -/
+the field after closing the old one.  (Since /repo 04aa54c `StartCleanup` hands the goroutine a
+snapshot of ticker and stop channel instead of re-reading the fields; re-reading is the more
+adversarial behaviour, so the theorem for `.keep` still covers the code, and the `.replace`
+witness describes the code before that change.) -/
 
 inductive StopVariant | keep | replace
   deriving DecidableEq, Repr
@@ -631,5 +651,81 @@ def pMu (c : Cfg PShared PLocal) : Nat := (c.ths.map pWeight).sum
 
 def pFinal (v : PVar) (a b : Nat) (fails : List Bool) (s : Schedule) : Cfg PShared PLocal :=
   run (pProg v) (s ++ rounds fails.length (4 * fails.length)) (pInit a b fails)
+
+/-! ## Two bridges of one mapping report to the same record (known finding)
+
+`reportTrafficStats` reads the mapping (`GetPortMapping`), adds its delta and writes the whole
+statistics back (`UpdatePortMappingStats`); `reportMu` is per bridge.  Two bridges (two tunnels of
+the same mapping) that overlap between their Get and their Update lose one delta. -/
+
+inductive XPc | get | upd | done
+  deriving DecidableEq, Repr
+
+structure XLocal where
+  pc : XPc
+  d : Nat                 -- this bridge's delta
+  m : Nat                 -- statistics read by GetPortMapping
+  deriving DecidableEq, Repr
+
+def xStep (_tid : Nat) (stat : Nat) (l : XLocal) : Nat × XLocal :=
+  match l.pc with
+  | .get => (stat, { l with pc := .upd, m := stat })
+  | .upd => (l.m + l.d, { l with pc := .done })
+  | .done => (stat, l)
+
+def xProg : Prog Nat XLocal := ⟨xStep⟩
+
+def xFinal (ds : List Nat) (s : Schedule) : Cfg Nat XLocal :=
+  run xProg (s ++ rounds ds.length (2 * ds.length)) ⟨0, ds.map fun d => ⟨.get, d, 0⟩⟩
+
+/-! ## ResourceManager.DisposeAll (internal/core/dispose/manager.go)
+
+`Register` adds a resource under `mu`.  `DisposeAll`: under `mu`, return at once if a disposal is in
+progress or nothing is registered; otherwise set `disposing`, take the whole map and empty it;
+outside the lock dispose every taken resource; under `mu` clear `disposing`. -/
+
+structure MShared where
+  pending : Nat           -- resources in the map
+  registered : Nat        -- resources ever registered
+  disposed : Nat          -- Dispose() calls
+  disposing : Bool
+  deriving DecidableEq, Repr
+
+inductive MPc | reg | d1 | d2 | d3 | done
+  deriving DecidableEq, Repr
+
+structure MLocal where
+  pc : MPc
+  taken : Nat             -- resources this DisposeAll took out of the map
+  deriving DecidableEq, Repr
+
+def mStep (_tid : Nat) (sh : MShared) (l : MLocal) : MShared × MLocal :=
+  match l.pc with
+  | .reg => ({ sh with pending := sh.pending + 1, registered := sh.registered + 1 }, { l with pc := .done })
+  | .d1 =>
+    if sh.disposing || sh.pending == 0 then (sh, { l with pc := .done })
+    else ({ sh with disposing := true, pending := 0 }, { pc := .d2, taken := sh.pending })
+  | .d2 => ({ sh with disposed := sh.disposed + l.taken }, { pc := .d3, taken := 0 })
+  | .d3 => ({ sh with disposing := false }, { l with pc := .done })
+  | .done => (sh, l)
+
+def mProg : Prog MShared MLocal := ⟨mStep⟩
+
+def mInit (pre : Nat) (pcs : List MPc) : Cfg MShared MLocal :=
+  ⟨⟨pre, pre, 0, false⟩, pcs.map fun p => ⟨p, 0⟩⟩
+
+def mWeight (l : MLocal) : Nat :=
+  match l.pc with
+  | .reg => 1 | .d1 => 3 | .d2 => 2 | .d3 => 1 | .done => 0
+
+def mMu (c : Cfg MShared MLocal) : Nat := (c.ths.map mWeight).sum
+
+/-- One uninterrupted `DisposeAll` (the last one, e.g. at process exit). -/
+def disposeAllSeq (sh : MShared) : MShared :=
+  if sh.disposing || sh.pending == 0 then sh
+  else { sh with pending := 0, disposed := sh.disposed + sh.pending }
+
+def mFinal (pre : Nat) (pcs : List MPc) (s : Schedule) : MShared :=
+  disposeAllSeq (run mProg (s ++ rounds pcs.length (3 * pcs.length)) (mInit pre pcs)).sh
 
 end Tunnox.C16
